@@ -10,6 +10,12 @@
 //! word and size, which may straddle the block boundary; their first-word bits are set with the
 //! real `fetch_or_atomic`, their last-word bits with the real `mark_last_word_of_object`.
 //! Oracle: `forward(o_i) == region_start + sum of the sizes of the live objects before o_i`.
+//!
+//! As built: the monolithic harness (`c37_forward_objects`, real scan, three `forward` calls) does not
+//! finish; the claimed harnesses (`c37_forward_first/_second/_any`) make one `forward` call each and
+//! replace `scan_non_zero_values` by the reference scan of env.rs (composition with C22); the offset
+//! vector lives in a typed two-word window.  `c37_transducer_handoff` decides the block hand-off
+//! algebra for every state.
 
 use crate::env::*;
 use crate::vm::*;
@@ -70,6 +76,10 @@ fn build(s: &mut Src) -> (cz::ForwardingMetadata<VmA>, Heap) {
     }
     swin_install(&COMPRESSOR_MARK, DATA_BASE);
     swin2_prepare(COMPRESSOR_OFFSET_VECTOR.offset - COMPRESSOR_MARK.offset);
+    #[cfg(kani)]
+    unsafe {
+        OV = [0; OV_LEN];
+    }
     let w1 = s.any_in(0, WORDS - 2);
     let n1 = s.any_in(2, WORDS);
     let two = s.any_bool();
@@ -92,6 +102,39 @@ fn build(s: &mut Src) -> (cz::ForwardingMetadata<VmA>, Heap) {
     }
     cz::calculate_offset_vector(&fm, addr(DATA_BASE), addr(DATA_BASE + WORDS * 8));
     (fm, h)
+}
+
+/// Composed formulation (reference scan, see env.rs), one `forward` call per harness.
+pub fn c37_forward_first(s: &mut Src) {
+    let (fm, h) = build(s);
+    let f1 = fm.forward(addr(h.o1)).as_usize();
+    chk!(s, "the first live object is forwarded to the region start", f1 == DATA_BASE);
+    cov!(s, "first object in the second block", h.o1 >= DATA_BASE + 512);
+    cov!(s, "two-word object", h.s1 == 16);
+}
+pub fn c37_forward_second(s: &mut Src) {
+    let (fm, h) = build(s);
+    s.assume(h.two);
+    let f2 = fm.forward(addr(h.o2)).as_usize();
+    chk!(s, "the second live object is forwarded right after the first", f2 == DATA_BASE + h.s1);
+    chk!(s, "forwarding preserves order, never moves an object up, and copies do not overlap", f2 >= DATA_BASE + h.s1 && f2 <= h.o2);
+    let straddle1 = (h.o1 - DATA_BASE) / 512 != (h.o1 + h.s1 - 8 - DATA_BASE) / 512;
+    cov!(s, "the first object straddles the block boundary", straddle1);
+    cov!(s, "second object in the second block, first entirely in the first", h.o2 >= DATA_BASE + 512 && h.o1 + h.s1 <= DATA_BASE + 512);
+    cov!(s, "both objects in the second block", h.o1 >= DATA_BASE + 512);
+}
+pub fn c37_forward_any(s: &mut Src) {
+    let (fm, h) = build(s);
+    // any word-aligned address that is not inside a live object: live bytes before it
+    let q = s.any_in(0, WORDS - 1);
+    let a = DATA_BASE + q * 8;
+    let in1 = a > h.o1 && a < h.o1 + h.s1;
+    let in2 = h.two && a > h.o2 && a < h.o2 + h.s2;
+    s.assume(!in1 && !in2);
+    let live_before = (if a >= h.o1 + h.s1 { h.s1 } else { 0 }) + (if h.two && a >= h.o2 + h.s2 { h.s2 } else { 0 });
+    chk!(s, "an address outside live objects is forwarded past exactly the live bytes below it", fm.forward(addr(a)).as_usize() == DATA_BASE + live_before);
+    cov!(s, "address in the second block after a straddling object", a >= DATA_BASE + 512 && h.o1 < DATA_BASE + 512 && h.o1 + h.s1 > DATA_BASE + 512);
+    cov!(s, "address between two objects", h.two && a >= h.o1 + h.s1 && a < h.o2);
 }
 
 pub fn c37_forward_objects(s: &mut Src) {
@@ -120,6 +163,9 @@ pub fn c37_forward_objects(s: &mut Src) {
 }
 
 harnesses! {
-    #[kani::unwind(2)] c37_transducer_handoff; // tier=wip timeout=600
+    #[kani::unwind(2)] c37_transducer_handoff; // timeout=600
     #[kani::unwind(4)] #[kani::stub(alloc::fmt::format, crate::env::stub_format)] #[kani::stub(mmtk::util::Address::load, crate::env::stub2_addr_load)] #[kani::stub(<u8 as mmtk::util::metadata::MetadataValue>::fetch_or, crate::env::stub2_u8_fetch_or)] #[kani::stub(<usize as mmtk::util::metadata::MetadataValue>::store_atomic, crate::env::stub2_usize_store_atomic)] #[kani::stub(<usize as mmtk::util::metadata::MetadataValue>::load_atomic, crate::env::stub2_usize_load_atomic)] c37_forward_objects; // tier=wip timeout=1800 loops=in_metadata_bytes:10+in_metadata_word:10+in_metadata_bits:10
+    #[kani::unwind(4)] #[kani::stub(alloc::fmt::format, crate::env::stub_format)] #[kani::stub(mmtk::util::Address::load, crate::env::stub2_addr_load)] #[kani::stub(<u8 as mmtk::util::metadata::MetadataValue>::fetch_or, crate::env::stub2_u8_fetch_or)] #[kani::stub(<usize as mmtk::util::metadata::MetadataValue>::store_atomic, crate::env::stub3_usize_store_atomic)] #[kani::stub(<usize as mmtk::util::metadata::MetadataValue>::load_atomic, crate::env::stub3_usize_load_atomic)] #[kani::stub(mmtk::util::metadata::side_metadata::SideMetadataSpec::scan_non_zero_values, crate::env::stub_scan_nzv)] c37_forward_first; // timeout=1500 loops=scan_non_zero_values:66
+    #[kani::unwind(4)] #[kani::stub(alloc::fmt::format, crate::env::stub_format)] #[kani::stub(mmtk::util::Address::load, crate::env::stub2_addr_load)] #[kani::stub(<u8 as mmtk::util::metadata::MetadataValue>::fetch_or, crate::env::stub2_u8_fetch_or)] #[kani::stub(<usize as mmtk::util::metadata::MetadataValue>::store_atomic, crate::env::stub3_usize_store_atomic)] #[kani::stub(<usize as mmtk::util::metadata::MetadataValue>::load_atomic, crate::env::stub3_usize_load_atomic)] #[kani::stub(mmtk::util::metadata::side_metadata::SideMetadataSpec::scan_non_zero_values, crate::env::stub_scan_nzv)] c37_forward_second; // timeout=1800 loops=scan_non_zero_values:66
+    #[kani::unwind(4)] #[kani::stub(alloc::fmt::format, crate::env::stub_format)] #[kani::stub(mmtk::util::Address::load, crate::env::stub2_addr_load)] #[kani::stub(<u8 as mmtk::util::metadata::MetadataValue>::fetch_or, crate::env::stub2_u8_fetch_or)] #[kani::stub(<usize as mmtk::util::metadata::MetadataValue>::store_atomic, crate::env::stub3_usize_store_atomic)] #[kani::stub(<usize as mmtk::util::metadata::MetadataValue>::load_atomic, crate::env::stub3_usize_load_atomic)] #[kani::stub(mmtk::util::metadata::side_metadata::SideMetadataSpec::scan_non_zero_values, crate::env::stub_scan_nzv)] c37_forward_any; // tier=thorough timeout=3600 loops=scan_non_zero_values:66
 }
